@@ -127,7 +127,20 @@ pub enum Pick {
 }
 
 /// Build a request case from the document alone.
-pub fn build_req(w: &World, op: &DocOp, r: &mut Rng, pick: Pick, omit: Option<&str>) -> Value {
+/// the parameters that can be given an ill-typed text: integer or boolean
+/// (a string is never ill-typed as a string)
+pub fn illtypable(w: &World, op: &DocOp) -> Vec<String> {
+    op.params
+        .iter()
+        .filter(|p| {
+            let s = doc::resolve(&p.schema, &w.comps);
+            matches!(s.get("type").and_then(|t| t.as_str()), Some("integer") | Some("boolean"))
+        })
+        .map(|p| p.name.clone())
+        .collect()
+}
+
+pub fn build_req(w: &World, op: &DocOp, r: &mut Rng, pick: Pick, omit: Option<&str>, ill: Option<&str>) -> Value {
     let mut sent = vec![];
     for p in &op.params {
         if Some(p.name.as_str()) == omit && p.loc == Loc::Query {
@@ -135,6 +148,7 @@ pub fn build_req(w: &World, op: &DocOp, r: &mut Rng, pick: Pick, omit: Option<&s
         }
         let take = p.required
             || p.loc == Loc::Path
+            || Some(p.name.as_str()) == ill
             || match pick {
                 Pick::RequiredOnly => false,
                 Pick::Some => r.chance(1, 2),
@@ -144,7 +158,11 @@ pub fn build_req(w: &World, op: &DocOp, r: &mut Rng, pick: Pick, omit: Option<&s
             continue;
         }
         let site = if p.loc == Loc::Path { Site::PathParam } else { Site::QueryParam };
-        let v = doc::gen_value(&p.schema, &w.comps, r, site, 0);
+        let v = if Some(p.name.as_str()) == ill {
+            json!(["x!", "1.5", "tru", "0x10", " 1", "-"][r.below(6)])
+        } else {
+            doc::gen_value(&p.schema, &w.comps, r, site, 0)
+        };
         sent.push(json!({"name": p.name, "in": if p.loc == Loc::Path { "path" } else { "query" }, "value": v}));
     }
     // the order of query parameters on the wire is the client's choice
@@ -188,6 +206,7 @@ pub fn build_req(w: &World, op: &DocOp, r: &mut Rng, pick: Pick, omit: Option<&s
         "path": op.path,
         "sent": sent,
         "omitted": omit,
+        "illtyped": ill,
         "body": body,
         "seed": r.below(1_000_000),
     })
@@ -365,20 +384,28 @@ pub fn run_req(w: &World, case: &Value, out: &mut dyn Write) {
     let mut obs_j = obs_j;
     obs_j["xcheck"] = json!({"pairs": xpairs});
     let coq = format!(
-        "(CReq {} {} {} {} (mkReq {} {} {}) {})",
+        "(CReq {} {} {} {} (mkReq {} {} {} {}) {})",
         g_spec(&info.path_spec),
         g_spec(&info.query_spec),
         g_docop(op),
         g_comps(op, &w.comps),
         format!("[{}]", g_sent.join(";")),
         g_opt(&case["omitted"].as_str(), |n| g_str(n)),
+        g_opt(&case["illtyped"].as_str(), |n| g_str(n)),
         g_body,
         g_obs
     );
     let mut tags = vec![
         format!("op:{}", op.op_id),
         format!("status:{}", status),
-        (if case["omitted"].is_null() { "request:all-required" } else { "request:one-required-omitted" }).to_string(),
+        (if !case["illtyped"].is_null() {
+            "request:one-ill-typed"
+        } else if case["omitted"].is_null() {
+            "request:all-required"
+        } else {
+            "request:one-required-omitted"
+        })
+        .to_string(),
         format!("sent:{}", case["sent"].as_array().map(|a| a.len()).unwrap_or(0)),
     ];
     if !b.is_null() {
